@@ -130,7 +130,7 @@ def execute(case):
     rejected_by = set()
     for draw in case['draws']:
         verdicts = {}
-        for ep in entry.ENTRY_POINTS:
+        for ep in prep.entry_points():
             out = prep.eval(ep, H.build_obj(case['x']), draw)
             probes['draws_evaluated'] += 1
             c = entry.classify(out, conf)
@@ -162,7 +162,7 @@ def execute(case):
             break
     if viol is None and mode == 'onebad' and not nonrandom:
         # reachability: *some* enumerated draw must reject at every entry point (nothing is assumed about which)
-        missing = [ep for ep in entry.ENTRY_POINTS if ep not in rejected_by]
+        missing = [ep for ep in prep.entry_points() if ep not in rejected_by]
         if missing:
             viol = ('unreachable_index', 'only item %d of %d violates, yet none of the %d enumerated draws made %s reject' % (
                 case['i'], n, len(case['draws']), '/'.join(missing)), 'unreachable:' + str(n))
